@@ -46,9 +46,10 @@ func NewNode(t thrift.Type, src []byte) Node {
 		l: (len(src)),
 		v: rt.GetBytePtr(src),
 	}
-	if t == thrift.LIST || t == thrift.SET {
+	// NOTICE: src may be shorter than the container header
+	if (t == thrift.LIST || t == thrift.SET) && len(src) >= 1 {
 		ret.et = *(*thrift.Type)(unsafe.Pointer(ret.v))
-	} else if t == thrift.MAP {
+	} else if t == thrift.MAP && len(src) >= 2 {
 		ret.kt = *(*thrift.Type)(unsafe.Pointer(ret.v))
 		ret.et = *(*thrift.Type)(rt.AddPtr(ret.v, uintptr(1)))
 	}
